@@ -15,6 +15,7 @@ EXTENDS Naturals, Integers, Sequences, FiniteSets, TLC, Json
 CONSTANTS PartN,        \* length of the partitioned array
           PartMax,      \* maximal number of partitions
           RangeSteps,   \* strides tried by Range (a stride >= 3 makes getitem_range_nowrap carry a phase across partitions)
+          HLOps,        \* names of high-level functions applied to the partitioned array (Python layer; {} on the C++ class)
           MaxSteps, EmitOn
 
 VARIABLES stops, first, hist, done
@@ -37,8 +38,11 @@ Range == Ready /\ \E a \in {-1, 0, 1, PartN}, b \in {0, 2, PartN, PartN + 1}, st
 Whole == Ready /\ \E o \in {"length", "tojson"} : hist' = Append(hist, [op |-> o, exp |-> "same"]) /\ UNCHANGED <<stops, first, done>>
 Repartition == Ready /\ \E ns \in AllSplits : ns # stops /\ stops' = ns
                  /\ hist' = Append(hist, [op |-> "repartition", stops |-> ns, exp |-> "same"]) /\ UNCHANGED <<first, done>>
+\* a high-level function of the library (ak.flatten, ak.num, reducers, ufuncs, ...) on the partitioned array: the same value as
+\* on the concatenation, and a result that is itself consistent (length, items one by one, validity)
+HighLevel == Ready /\ \E o \in HLOps : hist' = Append(hist, [op |-> "hl", f |-> o, exp |-> "same"]) /\ UNCHANGED <<stops, first, done>>
 Finish == stops # <<>> /\ ~done /\ Len(hist) = MaxSteps /\ done' = TRUE /\ UNCHANGED <<stops, first, hist>>
-PNext == ChooseSplit \/ At \/ Range \/ Whole \/ Repartition \/ Finish
+PNext == ChooseSplit \/ At \/ Range \/ Whole \/ Repartition \/ HighLevel \/ Finish
 
 \* partitionid_index_at is total on 0..n-1 and lands inside the partition it names
 LocateInRange == stops # <<>> => \A at \in 0..(PartN - 1) :
